@@ -420,8 +420,14 @@ impl StakeScen {
         // C20 self-check of the listing
         let pool_s: Vec<String> = self.pool.iter().map(|a| a.to_string()).collect();
         let pagediff = paging_audit_cursors("list_members", &|c, l| self.list_members(c, l), &pool_s).unwrap_or_default();
+        // the byte layout itself (see `scen_cw4group::render_raw_keys`): published keys, the keys cw-storage-plus
+        // uses, and a dump of the contract's storage (`App::dump_wasm_raw`)
+        let probes: Vec<&Addr> = self.pool.iter().take(2).collect();
+        let member_keys: Vec<Vec<u8>> = probes.iter().map(|a| cw4::member_key(a.as_str())).collect();
+        let primary_keys: Vec<Vec<u8>> = probes.iter().map(|a| cw4_stake::state::MEMBERS.key(*a).to_vec()).collect();
+        let rawkeys = crate::scen_cw4group::render_raw_keys(&raw.data, &member_keys, &primary_keys);
         format!(
-            "obs pagediff={} denom={} stake={} claims={} member={} hist={} members={} total={} admin={} hooks={} rawmember={} rawtotal={} held={} bal={} fheld={} cfg={} hs={} mlog={}",
+            "obs pagediff={} denom={} stake={} claims={} member={} hist={} members={} total={} admin={} hooks={} rawmember={} rawtotal={} held={} bal={} fheld={} cfg={} hs={} mlog={} rawkeys={}",
             pagediff,
             denom,
             stake.join(","),
@@ -439,7 +445,8 @@ impl StakeScen {
             fheld,
             cfg,
             hrec.join(","),
-            mlog.join(",")
+            mlog.join(","),
+            rawkeys
         )
     }
 
